@@ -9,6 +9,14 @@ sys.path.insert(0, VERIF)
 from harness.core import CHECKS  # noqa
 
 TABLE = {
+    "C10": dict(
+        category="exploration", design_ref="3/C10",
+        technique="Hypothesis-generated claims/requests with boundary values placed by construction, compared with a reference validator written from the statement (three-valued oracle: accept / reject with error class / don't care)",
+        text="~10^5 generated (claims, request options, now, leeway) cases per quick run plus the complete time-boundary grid (8 offsets x exp/nbf/iat x int/float x leeway 0/1/60 x "
+             "explicit/implicit now); acceptance must coincide with the statement's rules and the raised error class must belong to a violated rule; claims must stay unmodified. "
+             "Regions the statement leaves open (exp == now-leeway, bool/NaN times, value+values conflicts, aud corner cases, empty option dict, cross-type Python equality) are counted as DONT_CARE.",
+        note="oracle is /verif/checks/c10_claims.py:oracle(); the implicit clock is patched inside joserfc.rfc7519.registry for the duration of the constructor",
+    ),
     "C16": dict(
         category="exploration", design_ref="3/C16",
         technique="Hypothesis grammar-based and mutation-based fuzzing (raw bytes, header grammar with every JSON type per member, mutated valid compact and JSON tokens, reference-minted authenticated-but-malformed tokens, deep nesting) with an exception-type oracle and root-cause bucketing",
